@@ -80,7 +80,7 @@ func vRaceWorkload(t *testing.T, nclients int) (served int) {
 	defer l2.Close()
 
 	route := map[string]any{
-		"match": []any{map[string]any{"openvpn": map[string]any{"modes": []string{"auth"}, "ignore_timestamp": true}}},
+		"match":  []any{map[string]any{"openvpn": map[string]any{"modes": []string{"auth"}, "ignore_timestamp": true}}},
 		"handle": []any{map[string]any{"handler": "proxy", "upstreams": []any{map[string]any{"dial": []string{"unix/" + u1, "unix/" + u2}}}}},
 	}
 	rj, _ := json.Marshal(route)
